@@ -195,6 +195,43 @@ def strip(n):
             return n
 
 
+def annotate_single_defs(h):
+    """SSA-lite: every use of a local that is bound once by an immutable `let x = init;` (no `else`, by-value binding) gets a
+    pointer `_init` to that initialiser, so that frame-less helpers (chain, lit_value, closure_of, deref) read `x` as what it
+    names. Mutable, pattern-destructured and deferred-initialised locals are left alone."""
+    defs = {}
+    stack = [h["body"]]
+    nodes = []
+    while stack:
+        x = stack.pop()
+        if isinstance(x, dict):
+            nodes.append(x)
+            stack.extend(v for k_, v in x.items() if k_ != "_init")
+        elif isinstance(x, list):
+            stack.extend(x)
+    for x in nodes:
+        if x.get("k") == "SLet" and "init" in x and "els" not in x:
+            p = x.get("pat", {})
+            if p.get("k") == "PBinding" and not p.get("sub") and p.get("mode", "BindingMode(No, Not)") == "BindingMode(No, Not)":
+                defs[p.get("id")] = x["init"]
+    if not defs:
+        return
+    for x in nodes:
+        if x.get("k") == "Path":
+            r = x.get("res", {})
+            if r.get("r") == "local" and r.get("id") in defs and defs[r["id"]] is not x:
+                x["_init"] = defs[r["id"]]
+
+
+def deref(n, limit=8):
+    """strip(), and read a single-definition local as its initialiser (see annotate_single_defs)"""
+    n = strip(n)
+    while limit > 0 and n.get("k") == "Path" and "_init" in n:
+        n = strip(n["_init"])
+        limit -= 1
+    return n
+
+
 # values of local constants whose initialiser is a literal (or simple arithmetic on literals / other such constants):
 # filled by Facts(); `lit_value` looks through a path to one of them, so a rule that expects a literal is not upset by
 # `const LIMIT: usize = 128;`
@@ -202,7 +239,7 @@ CONST_VALUES = {}
 
 
 def lit_value(n, _depth=0):
-    n = strip(n)
+    n = deref(n)
     if n.get("k") == "Lit":
         return n["lit"].get("v")
     if n.get("k") == "Unary" and n.get("op") == "Neg":
@@ -574,6 +611,10 @@ class Facts:
         self.ffi = Crate(raw["wirefilter_ffi"])
         self.wasm = Crate(raw["wirefilter_wasm"])
         self.crates = [self.engine, self.ffi, self.wasm]
+        for c in self.crates:
+            for h in c.hir_list:
+                if "body" in h:
+                    annotate_single_defs(h)
         CONST_VALUES.clear()
         for _ in range(3):      # constants defined from other constants
             for c in self.crates:
@@ -587,13 +628,22 @@ class Facts:
 # ----------------------------------------------------------------------------------------------
 # iterator-chain helpers
 
-def chain(n):
-    """unroll a method-call chain: returns (root expression, [call nodes innermost-first])"""
-    calls_ = []
+def _deref_call(n):
+    """strip(); a single-definition local whose initialiser is a method call continues the chain it is part of"""
     n = strip(n)
+    d = deref(n)
+    return d if d is not n and d.get("k") == "MethodCall" else n
+
+
+def chain(n, follow=True):
+    """unroll a method-call chain: returns (root expression, [call nodes innermost-first]). With follow, a receiver that is a
+    single-definition local initialised by a method call continues the chain (`let it = v.iter(); it.map(f)` is v.iter().map(f))"""
+    calls_ = []
+    step = _deref_call if follow else strip
+    n = step(n)
     while n.get("k") == "MethodCall":
         calls_.append(n)
-        n = strip(n["recv"])
+        n = step(n["recv"])
     # `IntoIterator::into_iter(x)` / `Iterator::map(x, f)` written as paths are rare here; ignore
     calls_.reverse()
     return n, calls_
@@ -637,7 +687,7 @@ def root_is_field(n, base, field):
 
 
 def closure_of(n):
-    n = strip(n)
+    n = deref(n)
     return n if n.get("k") == "Closure" else None
 
 
